@@ -4,9 +4,13 @@ import (
 	"encoding/json"
 	"fmt"
 	"io"
+	"regexp"
 	"sort"
+	"strconv"
 	"strings"
+	"time"
 
+	"github.com/anishathalye/porcupine"
 	"github.com/semihalev/twig"
 	"simrt"
 )
@@ -50,6 +54,7 @@ var c02Site = map[string]string{
 	"b/m":     "{% from './lib' import f %}{{ tick() }}{{ f(v) }}",
 	"plain":   "{% for i in l %}{{ i|upper }}{{ tick() }}{% endfor %}{{ m.k }}{{ p.Name }}{{ v }}",
 	"inc2":    "{% include 'plain' %}+{% include 'a/p' %}+{% include 'b/p' with {'q': v} only %}",
+	"hot":     "H0:{{ v }}{{ tick() }}",
 	"long":    "{% set t = v ~ '!' %}{% if l|length > 2 %}{{ l|join(',') }}{% else %}no{% endif %}{{ tick() }}{{ t|upper }}{% for k, x in m %}{{ k }}={{ x }};{% endfor %}" + strings.Repeat("<p>text {{ v }}</p>", 20),
 }
 
@@ -117,11 +122,22 @@ func (propC02) Gen(seed uint64, ex map[string]bool) interface{} {
 		renderable = append(renderable, names[len(names)-1])
 	}
 	nt := r.Range(2, 4)
+	hot := r.P(30) && !ex["conflicting-registration"]
 	for t := 0; t < nt; t++ {
 		var ops []c02Op
 		n := r.Range(1, 4)
 		for i := 0; i < n; i++ {
 			v := fmt.Sprintf("t%d_%d", t, i)
+			if hot && r.P(65) {
+				// conflicting versions of one name: checked for linearizability, not against a fixed expectation
+				if r.P(45) {
+					ver := t*10 + i + 1
+					ops = append(ops, c02Op{K: "reghot", Name: "hot", Src: fmt.Sprintf("H%d:{{ v }}{{ tick() }}", ver), V: v})
+				} else {
+					ops = append(ops, c02Op{K: "renderhot", Name: "hot", V: v})
+				}
+				continue
+			}
 			switch c := r.N(20); {
 			case c < 10:
 				ops = append(ops, c02Op{K: "render", Name: pick(r, renderable), V: v})
@@ -247,6 +263,10 @@ func c02Do(e *twig.Engine, shared *twig.Template, op c02Op) Obs {
 		})
 	case "shared":
 		return observe(nil, func() (string, error) { return shared.Render(c02Ctx(op.V)) })
+	case "reghot":
+		return observe(nil, func() (string, error) { return "", e.RegisterString(op.Name, op.Src) })
+	case "renderhot":
+		return observe(nil, func() (string, error) { return e.Render(op.Name, c02Ctx(op.V)) })
 	}
 	return Obs{Class: "error", Err: "unknown op"}
 }
@@ -282,12 +302,18 @@ func (propC02) Run(scI interface{}) *Outcome {
 	}
 	nt := len(sc.Tasks)
 	got := make([][]Obs, nt)
+	type stamp struct{ call, ret int64 }
+	stamps := make([][]stamp, nt)
 	for t := 0; t < nt; t++ {
 		t := t
 		got[t] = make([]Obs, 0, len(sc.Tasks[t]))
+		stamps[t] = make([]stamp, 0, len(sc.Tasks[t]))
 		w.Go(func() {
 			for _, op := range sc.Tasks[t] {
-				got[t] = append(got[t], c02Do(e, shared, op))
+				call := w.Tick() // global event sequence numbers: unique, totally ordered
+				ob := c02Do(e, shared, op)
+				got[t] = append(got[t], ob)
+				stamps[t] = append(stamps[t], stamp{call, w.Tick()})
 			}
 		})
 	}
@@ -315,6 +341,9 @@ func (propC02) Run(scI interface{}) *Outcome {
 				return o
 			}
 			g, x := got[t][i], expect[t][i]
+			if op.K == "reghot" || op.K == "renderhot" {
+				continue // order-dependent: judged by the linearizability check below
+			}
 			if g.Key() != x.Key() {
 				kind := op.K
 				detail := ""
@@ -332,8 +361,79 @@ func (propC02) Run(scI interface{}) *Outcome {
 			}
 		}
 	}
+	// O3: histories with conflicting registrations of one name must be linearizable
+	var hist []porcupine.Operation
+	for t := 0; t < nt; t++ {
+		for i, op := range sc.Tasks[t] {
+			if op.K != "reghot" && op.K != "renderhot" {
+				continue
+			}
+			in := hotIn{Reg: op.K == "reghot"}
+			out := -1
+			if in.Reg {
+				in.Ver = hotVer(op.Src)
+				if got[t][i].Class == "ok" {
+					out = 0
+				}
+			} else if got[t][i].Class == "ok" {
+				out = hotVer(got[t][i].Out)
+				if got[t][i].Out != fmt.Sprintf("H%d:%s", out, op.V) {
+					out = -2 // torn / foreign output
+				}
+			}
+			hist = append(hist, porcupine.Operation{ClientId: t, Input: in, Call: stamps[t][i].call, Output: out, Return: stamps[t][i].ret})
+		}
+	}
+	if len(hist) > 0 {
+		o.Probes["linearizability_histories"]++
+		o.Probes["linearizability_ops"] += int64(len(hist))
+		model := porcupine.Model{
+			Init: func() interface{} { return 0 },
+			Step: func(state, input, output interface{}) (bool, interface{}) {
+				in, st, out := input.(hotIn), state.(int), output.(int)
+				if in.Reg {
+					if out != 0 {
+						return false, st
+					}
+					if sc.Cache == "off" {
+						return true, st // with caching disabled a registration is not kept; the loaders stay authoritative
+					}
+					return true, in.Ver
+				}
+				return out == st, st
+			},
+		}
+		switch porcupine.CheckOperationsTimeout(model, hist, 5*time.Second) {
+		case porcupine.Illegal:
+			var lines []string
+			for _, h := range hist {
+				lines = append(lines, fmt.Sprintf("T%d [%d,%d] %+v -> %v", h.ClientId, h.Call, h.Return, h.Input, h.Output))
+			}
+			o.Viol = &Violation{Oracle: "linearizability", Sig: "register/render history of one name is not linearizable",
+				Detail: fmt.Sprintf("cache=%s loader=%s; operations (task [call,return] input -> observed version; -1 = error):\n %s\n tasks: %s", sc.Cache, sc.Loader, strings.Join(lines, "\n "), c02Text(sc))}
+			return o
+		case porcupine.Unknown:
+			o.Probes["linearizability_inconclusive"]++
+		}
+	}
 	o.Sample = map[string]interface{}{"cache": sc.Cache, "loader": sc.Loader, "tasks": c02Text(sc), "switches": w.Switches(), "yields": w.Stat[simrt.StYield], "preempt_den": sc.PreemptDen, "pct": sc.PCT}
 	return o
+}
+
+type hotIn struct {
+	Reg bool
+	Ver int
+}
+
+var reHot = regexp.MustCompile(`^H([0-9]+):`)
+
+func hotVer(s string) int {
+	m := reHot.FindStringSubmatch(s)
+	if m == nil {
+		return -3
+	}
+	v, _ := strconv.Atoi(m[1])
+	return v
 }
 
 func c02Text(sc *c02Sc) string {
